@@ -33,7 +33,7 @@ CLAIMED = {
    "Lean kernel; axioms propext/Classical.choice/Quot.sound only; hand-written model tied by correspondence; Debug/JSON escaping modelled for the generated alphabet.",
    "Lean 4 model of the iterator windows + refinement to list operations on the forest + random-script correspondence with pest::iterators"),
  "C01": ("proof",
-   "The documented semantics is written down as an independent executable reference denotation in Lean (PestModel.Ref) and Vm::parse as call trees over the proved ParserState model (PestModel.Lower.vmExpr/vmRule, tied to the real VM by the V-line correspondence of C08/C12/C15). Kernel-checked for every optimized grammar, start rule, input and fuel: vm_refines_denote_partial (every definite outcome of the VM model is the reference's: same end position and stack, token queue = encoding of the reference's forest of pairs, failure = failure, Rust panic = documented stuck), vm_terminates_partial and vm_agrees_partial, under the side conditions TagRules (tags only on token-emitting operands) and fewer than 333333334 rules; the unrestricted statements are REFUTED in Lean by concrete grammars (vm_refines_denote_refuted_tag / _tag_noextras / _undefined_slot, vm_terminates_refuted — all outside what the real front-end produces or documents). A third refutation (a failed WHITESPACE/COMMENT attempt left the stack modified) was reproduced on the real VM, FIXED in the optimizer (3950a82), mirrored in the model, and its side condition removed from the theorems (ws_pop_example_agrees). The real pipeline (optimize + Vm::parse, hook-free) is compared against the reference on every start rule and ALL inputs up to a length bound for random guarded grammars incl. stack-stress, predicate-over-rule, skip-until and WHITESPACE-through-rule idioms, in two builds.",
+   "The documented semantics is written down as an independent executable reference denotation in Lean (PestModel.Ref) and Vm::parse as call trees over the proved ParserState model (PestModel.Lower.vmExpr/vmRule, tied to the real VM by the V-line correspondence of C08/C12/C15). Kernel-checked for every optimized grammar, start rule, input and fuel: vm_refines_denote_partial (every definite outcome of the VM model is the reference's: same end position and stack, token queue = encoding of the reference's forest of pairs, failure = failure, Rust panic = documented stuck), vm_terminates_partial and vm_agrees_partial, under the side conditions TagRules (tags only on token-emitting operands) and fewer than 333333334 rules; the unrestricted statements are REFUTED in Lean by concrete grammars (vm_refines_denote_refuted_tag / _tag_noextras / _undefined_slot, vm_terminates_refuted — all outside what the real front-end produces or documents). A third refutation (a failed WHITESPACE/COMMENT attempt left the stack modified) was reproduced on the real VM, FIXED in the optimizer (3950a82), mirrored in the model, and its side condition removed from the theorems (ws_pop_example_agrees). Capstone (PestModel.Thm.EndToEnd, composing C06, C05, C01, C02, C08): for every grammar the validator accepts (well named, stack-free, untagged, `list` pass idle), every start rule and every input, the documented semantics assign a definite result to the grammar AS WRITTEN and the VM model run on the optimizer's output reaches exactly it (accepted_grammar_parses_as_documented), the generated parser's model terminates with the same report (accepted_grammar_generated_parser_agrees), and a failure carries the specified report (accepted_grammar_failure_report). The real pipeline (optimize + Vm::parse, hook-free) is compared against the reference on every start rule and ALL inputs up to a length bound for random guarded grammars incl. stack-stress, predicate-over-rule, skip-until and WHITESPACE-through-rule idioms, in two builds.",
    "DESIGN.md §6 C01, §13",
    "Lean kernel (axioms propext/Classical.choice/Quot.sound) for the VM model vs the reference under stated side conditions; reference denotation = transcription of derive/src/lib.rs prose + DESIGN §10 decisions; real VM tied by differential and V-line correspondence; lister finding classified.",
    "Lean 4 simulation proof (lowered VM over the ParserState model refines the reference denotation) + exhaustive-per-grammar differential against optimize+Vm::parse"),
